@@ -359,6 +359,13 @@ def groups(tier):
     if tier == "thorough":
         opts += ["inferral-factory-finite", "two-k", "kk", "ku-factory", "oneway-k"]
     gs += e2e.std_groups(tier, dbs=("forest", "forest-noreverse"), opts=opts, sched=(tier == "thorough"), rng=False, S3=(tier == "thorough"))
+    if tier == "quick":
+        # three-state tables in which the start class is specified backwards through rules that can only be rebuilt from a
+        # child class of the key (the thorough tier runs all three-state tables)
+        for lo in (100, 400):
+            gs.append({"name": "opt-forest-opaque-merge-S3-t%d" % lo, "fn": "check_opt",
+                       "shape": {"db": "forest", "opt": "opaque-merge", "S": 3, "trange": [lo, lo + 300]},
+                       "cond_timeout": 1500.0, "path_timeout": 120.0, "expect_space": 300, "weight": 300})
     return gs
 
 
